@@ -25,10 +25,14 @@ from jellyfysh.activator.tagger.cell_boundary_tagger import CellBoundaryTagger  
 from jellyfysh.event_handler.cell_boundary_event_handler import CellBoundaryEventHandler  # noqa: E402
 
 
-def pos_in_cell(cell, unit, side=1.0):
-    # units alternate between the cell centre, the cell minimum (exactly on the boundary) and near the cell maximum
-    frac = (0.5, 0.0, 0.96875)[unit % 3]
-    return [(cell + frac) * side, 0.5]
+SIDE = 1.0          # cell side along the ring; the box is [ncells * SIDE, 1.0]
+
+
+def pos_in_cell(cell, unit):
+    # units alternate between the cell centre, the cell minimum (exactly on the boundary) and near the cell maximum; with a
+    # cell side that is not a power of two the boundary itself is not exactly representable, so a quarter is used instead
+    frac = ((0.5, 0.0, 0.96875) if SIDE == 1.0 else (0.5, 0.25, 0.96875))[unit % 3]
+    return [(cell + frac) * SIDE, 0.5]
 
 
 def node(uid, cell, relevant, moving):
@@ -45,7 +49,7 @@ def replay(beh, cfg, drift):
     exact = True
     ncells, layers, maxocc, relevant, nunits = cfg["ncells"], cfg["layers"], cfg["maxocc"], set(cfg["relevant"]), cfg["nunits"]
     setting.reset()
-    HypercuboidSetting(beta=1.0, dimension=2, system_lengths=[float(ncells), 1.0])
+    HypercuboidSetting(beta=1.0, dimension=2, system_lengths=[ncells * SIDE, 1.0])
     setting.set_number_of_root_nodes(nunits)
     setting.set_number_of_nodes_per_root_node(1)
     setting.set_number_of_node_levels(1)
@@ -76,7 +80,7 @@ def replay(beh, cfg, drift):
                 out = boundary.send_out_state()
                 got_cell = cidx[cells.position_to_cell(out[0].value.position)]
                 dt = t - Time(0.0, 0.0)
-                if got_cell != want_cell or not (0.0 < dt <= 1.0) or out[0].value.position[1] != start[1]:
+                if got_cell != want_cell or not (0.0 < dt <= SIDE * (1.0 + 1e-9)) or out[0].value.position[1] != start[1]:
                     return dict(step=step, what="cell-boundary event does not put the active unit into the neighbouring cell "
                                                 "(motion in %s direction)" % ("positive" if op["up"] else "negative"),
                                 got=dict(cell=got_cell, dt=dt, position=out[0].value.position), want=want_cell, start=start, op=op)
@@ -153,7 +157,17 @@ def main():
             kinds[o["op"]["name"]] = kinds.get(o["op"]["name"], 0) + 1
             surplus_seen += 1 if o["keys"] else 0
         drift = []
-        r = replay(beh, spec, drift)
+        global SIDE
+        r = None
+        # two geometries: cells of side 1, and (for 3, 6, 7, 9 cells) a box of length 1 whose cell side 1/n is not exactly
+        # representable -- there int(x / side) of the floats just below the box length rounds up
+        for SIDE in ([1.0, 1.0 / spec["ncells"]] if spec["ncells"] in (3, 6, 7, 9) else [1.0]):
+            r = replay(beh, spec, drift)
+            if r is not None:
+                if SIDE != 1.0:
+                    r["what"] += " (box length 1, cell side 1/%d)" % spec["ncells"]
+                break
+        SIDE = 1.0
         if drift and len(drifts) < 3:
             drifts.append(dict(behaviour=idx, **drift[0]))
         if r is not None:
